@@ -144,6 +144,10 @@ S["db_llnl"] = [("LoadDatabase", "llnl.dat")]
 S["db_rates"] = [("LoadDatabase", "phreeqc_rates.dat")]
 S["db_mini"] = [("LoadDatabaseString", "mini")]
 S["db_same"] = [("LoadDatabase", "phreeqc.dat")]
+# every other shipped database as the history of a load (kept out of S: they are explored in a bound of their own)
+DBX = {"dbx_" + n[:-4]: [("LoadDatabase", n)] for n in (
+    "Amm.dat", "ColdChem.dat", "Concrete_PHR.dat", "Concrete_PZ.dat", "Kinec.v2.dat", "Kinec_v3.dat", "Tipping_Hurley.dat", "core10.dat",
+    "frezchem.dat", "iso.dat", "minimum.dat", "minteq.dat", "minteq.v4.dat", "wateq4f.dat")}
 
 # setter calls
 S["sw_on"] = [("SetOutputFileOn", 1), ("SetOutputStringOn", 1), ("SetErrorFileOn", 1), ("SetLogFileOn", 1), ("SetLogStringOn", 1),
